@@ -195,7 +195,9 @@ _FUNC_NAMES = ["vf_a", "vf_b", "vf_ab", "vf_a1", "vf_a2", "vq_a", "vq_b1", "vf-d
 
 # runs of backslashes, also directly in front of a quote (even/odd runs decide whether the quote is escaped)
 _BS_TOKENS = ["\\", "\\\\", "\\\\\\", "\\'", "\\\\'", "\\\\\\'", "\\\"", "\\\\\"", "\\\\\\\"", "\\$", "\\\\n"]
-_CTRL = ["\t", "\n", "\x01", "\x1b", "\x7f", "\r"]
+_CTRL = ["\t", "\n", "\x01", "\x1b", "\x7f", "\r", "\x0c", "\x0b", "\x1c"]
+# characters Python calls whitespace but bash does not split on (written bare by bash where printable)
+_ODD_SPACE = ["\u00a0", "\u2028", "\u3000", "\u0085", "\u2003"]
 
 
 @st.composite
@@ -203,7 +205,7 @@ def _value_text(draw):
     """token soup; a third of the values end in a run of 1-3 backslashes, a third contain a control character
     (bash then writes the value as $'...'), independently - so every form bash emits ('..', "..", $'..', array
     elements) gets values whose last character before the closing quote is an (escaped) backslash"""
-    toks = draw(st.lists(st.sampled_from(VAL_TOKENS + _BS_TOKENS), min_size=0, max_size=6))
+    toks = draw(st.lists(st.sampled_from(VAL_TOKENS + _BS_TOKENS + _ODD_SPACE), min_size=0, max_size=6))
     if draw(st.integers(0, 2)) == 0:
         toks.insert(draw(st.integers(0, len(toks))), draw(st.sampled_from(_CTRL)))
     v = "".join(toks)
@@ -708,6 +710,11 @@ def _breaks(text):
             out = io.BytesIO()
             filter_env.main_run(out, text + tail, [], [re.escape(text.split(" ", 1)[0])])
             return normalise(out.getvalue().decode("utf8", "replace")) != normalise(tail)
+        m = re.match(r"^([A-Za-z_][A-Za-z0-9_]*)=", text)
+        if m:  # a plain assignment: remove it, keep the sentinels
+            out = io.BytesIO()
+            filter_env.main_run(out, text + tail, [m.group(1)], [])
+            return normalise(out.getvalue().decode("utf8", "replace")) != normalise(tail)
     except Exception:  # noqa: BLE001
         return True
     return False
@@ -888,6 +895,8 @@ def signature(body):
 
 
 def _value_feature(text):
+    if re.search(r"[^\S \t\n]", text):
+        return "non-blank-whitespace"  # \r, \f, \v, NBSP, U+2028 ...: str.isspace() but no word separator for bash
     for ch, nm in (("$'", "ansi-c"), ("(", "array"), ('"', "dquote"), ("'", "squote")):
         if ch in text:
             return nm
